@@ -71,6 +71,11 @@ class CursorProxy:
         return self._c.close()
 
     @property
+    def connection(self):
+        # sqlite3.Cursor.connection: code that reaches the connection through the cursor stays inside the interposer
+        return self._conn
+
+    @property
     def lastrowid(self):
         return self._c.lastrowid
 
